@@ -1,14 +1,24 @@
 (* Props/C19.v — property theorems only.
    Model: Expand/Glob.v (Config.glob / globDir / the glob decision of FieldsSeq on an
-   in-memory file system); Spec: bash_name_matches (pattern matching of a name with the
-   explicit-leading-dot rule), "sorted bytewise", "the word itself unless nullglob".
+   in-memory file system); Spec: Expand/GlobSpec.v — [path_rel]: the paths of the file system
+   whose components match the components of the word ([bash_name_matches] = pattern match + the
+   explicit-leading-dot rule; literal components must exist; non-final components must be
+   directories, symlinks followed), "sorted bytewise", "the word itself unless nullglob".
 
-   Full statement C19_glob_matches_spec (every word of the fragment, any number of components,
-   globstar): modelled and tied to the code by the code leg, proved here for words of ONE
-   component (C19_glob_single_*_partial); the component loop and the ** walk are by code leg +
-   bash search only. *)
-From Verif Require Import Base.Str Expand.Param Expand.ParamSpec Expand.Glob Proofs.GlobProofs.
+   C19_glob_matches_spec covers words with any number of components in which no component is an
+   active "**" (globstar off, or no "**" component).  The "**" walk is modelled and tied to the code
+   by the code leg, and compared with bash by the search, but not proved against a Spec. *)
+From Verif Require Import Base.Str Expand.Param Expand.ParamSpec Expand.Glob Expand.GlobSpec Proofs.GlobProofs.
 Open Scope N_scope.
+
+(* the result of glob: sorted, and (for non-empty paths) exactly the tree paths whose components match *)
+Theorem C19_glob_matches_spec : forall fs o w l,
+  no_globstar o (split_slash w []) -> all_simple (split_slash w []) ->
+  glob fs o w = GOk l ->
+  sorted_strs l /\
+  forall p, p <> [] -> (In p l <-> path_rel fs (o_dot o) (split_slash w []) [] p).
+Proof. exact glob_matches_spec. Qed.
+Print Assumptions C19_glob_matches_spec.
 
 (* set -f / ReadDir2 = nil: no expansion at all *)
 Theorem C19_noglob : forall fs o w, o_noglob o = true -> glob_word fs o w = GOk [w].
@@ -57,5 +67,8 @@ Example C19_dot_rule_example :
   glob_word fs (mkO false false false false) [46; 63] = GOk [[46; 120]] /\
   glob_word fs (mkO true false false false) [63; 120] = GOk [[46; 120]; [97; 120]] /\
   glob_word fs (mkO false false true false) [42; 42] = GOk [[97; 120]; [100]] /\
-  glob_word fs (mkO false true false false) [122; 42] = GOk [].
+  glob_word fs (mkO false true false false) [122; 42] = GOk [] /\
+  (* several components: */.?  and  ./d/* (a leading dot needs an explicit dot) *)
+  glob_word fs (mkO false false false false) [42; 47; 46; 63] = GOk [[100; 47; 46; 121]] /\
+  glob_word fs (mkO false false false false) [46; 47; 100; 47; 42] = GOk [[46; 47; 100; 47; 42]].
 Proof. vm_compute. repeat split; reflexivity. Qed.
